@@ -542,6 +542,90 @@ def _intenc_rule(chk, prog):
     chk.floor(rule, 3, n)
 
 
+def _signext_rule(chk, prog):
+    """readint's two-byte form carries 6 + 8 payload bits in two's complement (C09-INTENC bounds what the writer sends
+    that way).  The reader widens the payload with `v |= <test> ? <mask> : 0`: the test must be true for exactly the
+    payloads whose top payload bit is set and the mask must be exactly the bits above the payload - decided by
+    evaluating the test for every one of the 2^14 payloads."""
+    rule = "C09-SIGNEXT"
+    chk.rule(rule, "readint's sign extension of the two-byte form sets exactly the bits above the payload, for exactly the payloads whose top bit is set (all 2^14 evaluated)")
+    from rules.c05 import eval_pred
+    tu = prog.tus["marsh.c"]
+    fn = tu.funcs.get("readint")
+    if fn is None:
+        raise AnalysisBroken("readint not found")
+    chk.analysed(fn)
+
+    def unparen(e):
+        e = strip_casts(e)
+        while e is not None and e.k == "paren" and e.kids:
+            e = strip_casts(e.kids[0])
+        return e
+
+    def ev(e, var, val):
+        e = unparen(e)
+        if e is None:
+            return None
+        if e.k == "bin":
+            a, b = ev(e.kids[0], var, val), ev(e.kids[1], var, val)
+            if a is None or b is None:
+                return None
+            try:
+                return {"==": int(a == b), "!=": int(a != b), "<": int(a < b), "<=": int(a <= b), ">": int(a > b), ">=": int(a >= b),
+                        "+": a + b, "-": a - b, "&": a & b, "|": a | b, "^": a ^ b, "<<": (a << b) & 0xFFFFFFFF, ">>": a >> b,
+                        "&&": int(bool(a and b)), "||": int(bool(a or b))}[e.op]
+            except (KeyError, ValueError):
+                return None
+        if e.k == "un" and e.op == "!":
+            a = ev(e.kids[0], var, val)
+            return None if a is None else int(not a)
+        return eval_pred(e, var, val)
+    n = 0
+    for x in fn.nodes:
+        if x.k != "asg" or x.op != "|=" or not is_ref(x.kids[0]):
+            continue
+        rhs = unparen(x.kids[1])
+        if rhs is None or rhs.k != "cond" or len(rhs.kids) != 3:
+            continue
+        var = x.kids[0].name
+        decl = [d for d in fn.nodes if d.k == "vardecl" and d.name == var and d.kids]
+        if not decl:
+            continue
+        masks = [strip_casts(y.kids[1]).v for y in decl[0].kids[0].walk() if y.k == "bin" and y.op == "&" and strip_casts(y.kids[1]).v is not None]
+        shifts = [strip_casts(y.kids[1]).v for y in decl[0].kids[0].walk() if y.k == "bin" and y.op == "<<" and strip_casts(y.kids[1]).v is not None]
+        if len(masks) != 1 or len(shifts) != 1:
+            raise AnalysisBroken("readint: payload of `%s` not recognised" % var)
+        bits = bin(masks[0]).count("1") + shifts[0]
+        n += 1
+        chk.instance(rule)
+        want_mask = (0xFFFFFFFF << bits) & 0xFFFFFFFF
+        yes, no = ev(rhs.kids[1], var, 0), ev(rhs.kids[2], var, 0)
+        wrong = None
+        for v in range(1 << bits):
+            t = ev(rhs.kids[0], var, v)
+            if t is None:
+                raise AnalysisBroken("readint: sign test `%s` not evaluable" % rhs.kids[0].text())
+            neg = bool(v >> (bits - 1))
+            if bool(t) != neg:
+                wrong = v
+                break
+        if yes is None or no is None:
+            raise AnalysisBroken("readint: sign extension arms not constant")
+        if wrong is not None:
+            sv = wrong - (1 << bits) if wrong >> (bits - 1) else wrong
+            chk.violation(rule, "marsh.c", "readint", "sign-test", x.loc,
+                          "readint's sign test `%s` is %s for the %d-bit payload %#x, which stands for %d: that value comes back from "
+                          "unmarshal as %d (this reader also decodes every length, reference index and funcdef field)" % (
+                              rhs.kids[0].text(), "false" if wrong >> (bits - 1) else "true", bits, wrong, sv,
+                              wrong if wrong >> (bits - 1) else (wrong | want_mask) - (1 << 32)))
+        elif yes != want_mask or no != 0:
+            chk.violation(rule, "marsh.c", "readint", "sign-mask", x.loc,
+                          "readint extends the sign of a %d-bit payload with mask %#x / %#x; the bits above the payload are %#x" % (bits, yes, no, want_mask))
+        else:
+            chk.ok(rule, "readint: `%s` is true for exactly the payloads with bit %d set (%d evaluated), mask %#x" % (rhs.kids[0].text(), bits - 1, 1 << bits, yes))
+    chk.floor(rule, 1, n)
+
+
 def _fiberargs_rule(chk, prog):
     """A suspended fiber's stack has one more live region than its frames: data[stackstart .. stacktop), the values
     already pushed for a call the top frame has not made yet (a fiber stopped by a breakpoint on the call instruction).
@@ -654,6 +738,7 @@ def run(chk):
     _asm_rule(chk, prog)
     _asmops_rule(chk, prog)
     _intenc_rule(chk, prog)
+    _signext_rule(chk, prog)
     _lookup_rule(chk, prog)
     _asmrange_rule(chk, prog)
     _framefresh_rule(chk, prog)
